@@ -20,16 +20,26 @@ def main():
     except ImportError as e:
         print("no check for %s: %s" % (a.pid, e), file=sys.stderr)
         return 2
+    chk = None
     try:
         chk = common.Check(a.pid, mod.LEVEL, a.tier)
         mod.run(chk, replay=a.replay)
         return chk.finish()
-    except common.Infra as e:
-        print("INFRASTRUCTURE FAILURE (no verdict): %s" % e, file=sys.stderr)
-        return 2
-    except Exception:
-        traceback.print_exc()
-        print("INFRASTRUCTURE FAILURE (no verdict): unexpected exception", file=sys.stderr)
+    except Exception as e:
+        if not isinstance(e, common.Infra):
+            traceback.print_exc()
+        # a later failure of the machinery does not erase what the real code was already seen doing: violations observed on the
+        # implementation before the failure are reported; with none, there is no verdict
+        if chk is not None and chk.violations:
+            print("INFRASTRUCTURE FAILURE after %d violation(s) were observed on the real code (reported below): %s" % (
+                len(chk.violations), str(e)[:2000]), file=sys.stderr)
+            chk.notes.append("the run stopped early on an infrastructure failure: " + str(e)[:300])
+            try:
+                return chk.finish()
+            except Exception:
+                traceback.print_exc()
+                return 2
+        print("INFRASTRUCTURE FAILURE (no verdict): %s" % (e if isinstance(e, common.Infra) else "unexpected exception"), file=sys.stderr)
         return 2
 
 
